@@ -2,6 +2,7 @@ pub mod cover;
 pub mod engine;
 pub mod gen;
 pub mod graph;
+pub mod harvest;
 pub mod judge;
 pub mod prep;
 pub mod reference;
